@@ -444,6 +444,14 @@ def rule_r6(repo, run):
     run.floor(R, "output directory assignments", nd, 4)
 
 
+def rule_x(repo, run):
+    R = run.rule("C15.R7", "the Lua emitter filters every declaration by its own wrap flag before grouping overloads "
+                           "(C18.R2)")
+    from checks import c18
+    from sa.report import import_rules
+    import_rules(run, R, c18, repo, {"C18.R2"}, only=lambda c: "wrap_functions" in c)
+
+
 def run(repo, run, tier):
     P = Program(repo)
     rule_r1(repo, run)
@@ -452,5 +460,6 @@ def run(repo, run, tier):
     rule_r4(repo, run)
     rule_r5(repo, run)
     rule_r6(repo, run)
+    rule_x(repo, run)
     run.assumptions.append("the property's domain requests Fortran only together with C, so a test of the "
                            "Fortran flag is accepted as guard for switching the C flag on")
